@@ -164,6 +164,13 @@ def mutants(name, ini):
                            ('spline(as.buck 1000.0 0.3 0 >1.0 buck4_spline(as.constant 1.5) >2.0 as.buck 0 1 3)', 'spline-type-written-as-modifier'),
                            ('spline(as.buck 1000.0 0.3 0 >1.0 exp_spline >1.0 as.buck 0 1 3)', 'spline-equal-knots'),
                            ('spline(as.buck 1000.0 0.3 0 >1.0 exp_spline >2.0 as.buck 0 1 3, as.zero)', 'spline-two-arguments'),
+                           # numbers with two decimal points / two exponents are typing errors, not two parameters
+                           ('as.buck 1000.0.3 32.0', 'malformed-number'), ('as.polynomial 1.5.5 2.0', 'malformed-number'), ('as.buck 1000.0 0.3e1e2 32.0', 'malformed-number'),
+                           ('as.buck 1000.0 0.3 32.0.', 'malformed-number'), ('>1..5 as.zero', 'malformed-number'),
+                           # as.buck4 is documented shorthand for a buck4_spline: its knots obey the same rules
+                           ('as.buck4 1000.0 0.3 32.0 1.0 1.0 2.0', 'buck4-rmin-at-detach'), ('as.buck4 1000.0 0.3 32.0 1.0 3.0 2.0', 'buck4-rmin-above-attach'),
+                           ('as.buck4 1000.0 0.3 32.0 1.0 0.5 2.0', 'buck4-rmin-below-detach'), ('as.buck4 1000.0 0.3 32.0 2.0 1.5 1.0', 'buck4-reversed-knots'),
+                           ('as.buck4 1000.0 0.3 32.0 1.0 1.5 1.0', 'buck4-equal-knots'),
                            # argument lists that break directly after a comma
                            ('trans(as.buck 1000.0 0.2 32, 2.0)', 'modifier-bare-number-argument'), ('pow(as.buck 1000.0 0.3 32.0, 2)', 'modifier-bare-number-argument'),
                            ('sum(as.buck 1000.0 0.3 32.0, )', 'modifier-trailing-comma'), ('sum(as.buck 1000.0 0.3 32.0,, as.zero)', 'modifier-doubled-comma'),
@@ -215,7 +222,8 @@ def mutants(name, ini):
                 out.append(setk('Potential-Form', k, nk, op))
             for nv, op in ((v + ' +', 'formula-unparsable'), ('(' + v, 'formula-unparsable'), (v + ' * undefined_q', 'formula-unknown-variable'),
                            (v + ' + nosuch(r)', 'formula-unknown-function'), (v + ' + as.buck(r, 1.0)', 'formula-call-arity'),
-                           (v + ' + pymath.nosuch(r)', 'formula-unknown-function'), ('', 'formula-empty')):
+                           (v + ' + pymath.nosuch(r)', 'formula-unknown-function'), ('', 'formula-empty'),
+                           (v + ' + pymath.log(r, 2, 2)', 'formula-call-arity:pymath'), (v + ' + pymath.sqrt(r, 2)', 'formula-call-arity:pymath'), (v + ' + pymath.atan2(r)', 'formula-call-arity:pymath')):
                 out.append(setv('Potential-Form', k, nv, op))
         if len(pf[1]) >= 2:
             k0, other = pf[1][0][0], pf[1][1][0].split('(')[0]
@@ -225,6 +233,8 @@ def mutants(name, ini):
     for nk, nv, op in (('unused(r, A', 'A*r', 'unused-formula-signature-unclosed'), ('unused(r,,A)', 'A*r', 'unused-formula-empty-parameter'),
                        ('unused(r, A, a)', 'A*r + a', 'unused-formula-parameters-differ-in-case'), ('unused(r, A)', 'A*r + ${nosuch}', 'unused-formula-placeholder-unresolved'),
                        ('unused r, A', 'A*r', 'unused-formula-signature-no-parentheses'),
+                       ('unused(r, A)', 'A*r +', 'unused-formula-unparsable'), ('unused(r, A)', '(A*r', 'unused-formula-unparsable'), ('unused(r, A)', 'A*r + nosuch(r)', 'unused-formula-unknown-function'),
+                       ('unused(r, A)', 'A*r*undefined_q', 'unused-formula-unknown-variable'),
                        # parameter names the formula language cannot bind: its constants, functions, keywords, non-identifiers
                        ('ljx(r, epsilon, sigma)', '4*epsilon*((sigma/r)^12 - (sigma/r)^6)', 'formula-parameter-reserved:epsilon'), ('unused(r, pi)', 'pi*r', 'formula-parameter-reserved:pi'),
                        ('unused(r, inf)', 'r', 'formula-parameter-reserved:inf'), ('unused(r, min)', 'r', 'formula-parameter-reserved:min'), ('unused(r, exp)', 'r', 'formula-parameter-reserved:exp'),
